@@ -668,7 +668,7 @@ class Node(object):
         dist = self.simulation.network.customer_classes[ind.customer_class].reneging_time_distributions[self.id_number - 1]
         if dist is None:
             return float("inf")
-        return self.now + dist._sample(t=self.now, ind=ind)
+        return self.increment_time(self.now, dist._sample(t=self.now, ind=ind))
 
     def get_service_time(self, ind):
         """
